@@ -224,6 +224,16 @@ class Sim:
                 return
         elif who == "noise":
             addr = NOISE[idx % len(NOISE)]
+        elif who == "related":
+            # a transponder never heard on ADS-B whose address differs from a tracked one by a register number in the top byte (the data-parity /
+            # BDS overlay of Annex 10 folds BDS1,BDS2 into those bits), by one bit, or by its byte order
+            base = self._addr(idx)
+            if base is None:
+                return
+            twist = [0x10, 0x17, 0x20, 0x30, 0x40, 0x44, 0x45, 0x50, 0x60][seed % 9] << 16 if seed % 4 else [1, 0x800000, 0x000100][seed % 3]
+            addr = base ^ twist
+            if addr in self.acs or addr in NOISE:
+                return
         else:
             addr = UNKNOWN[idx % len(UNKNOWN)]
         r = mix("cb", seed)
@@ -243,6 +253,12 @@ class Sim:
                                                 (35, 36, 37, 45, r.randint(0, 90)), (46, 47, 48, 56, r.randint(0, 90))):
                 mb = D.place(mb, st_, st_, 1)
                 mb = D.place(mb, first, last, val)
+        elif kind == "bds30":
+            # ACAS resolution advisory report naming a threat by its 24-bit address (TTI = 1): another tracked aircraft, the sender itself, or anyone
+            keys = sorted(self.acs)
+            tid = r.choice(keys + [addr]) if keys and seed % 5 else r.getrandbits(24)
+            ara = (r.getrandbits(7) << 7) | r.randrange(48)
+            mb = (0x30 << 48) | (ara << 34) | (r.getrandbits(4) << 30) | (r.getrandbits(2) << 28) | (1 << 26) | (tid << 2)
         elif kind == "bds44":
             mb = r.getrandbits(56)
         else:
@@ -267,6 +283,9 @@ class Sim:
         c_ts = [t for t, m, a in self.batch_c]
         c_msg = [m for t, m, a in self.batch_c]
         before = set(self.dec[0].acs.keys())
+        # a message concerns the record of its sender only: whoever sent nothing in this call keeps its record as it was
+        frozen = {k: repr(sorted(((str(a), repr(b)) for a, b in v.items()))) for k, v in self.dec[0].acs.items()} if len(self.dec[0].acs) <= 64 else {}
+        senders = {"%06X" % int(m[2:8], 16) for _t, m in self.batch_a} | {"%06X" % a for _t, _m, a in self.batch_c}
         for k, dec in enumerate(self.dec):
             f = (lambda s: s) if k == 0 else (lambda s: s.lower())
             r = call(dec.process_raw, list(a_ts), [f(m) for m in a_msg], list(c_ts), [f(m) for m in c_msg], tnow)
@@ -274,6 +293,13 @@ class Sim:
                 raise Violation("process_raw raised %r on ADS-B batch %r, Comm-B batch %r, tnow=%r (%s-case input)" % (
                     r[1:], list(zip(a_ts, a_msg)), list(zip(c_ts, c_msg)), tnow, "upper" if k == 0 else "lower"))
         self.stats["flush"] += 1
+        for k_, was in frozen.items():
+            rec = self.dec[0].acs.get(k_)
+            if rec is not None and k_ not in senders:
+                now_ = repr(sorted(((str(a), repr(b)) for a, b in rec.items())))
+                if now_ != was:
+                    raise Violation("the record of %s changed in a call in which it sent nothing (ADS-B %r, Comm-B %r): %s -> %s" % (
+                        k_, [m for _t, m in self.batch_a][:4], [(m, "%06X" % a) for _t, m, a in self.batch_c][:4], was[:300], now_[:300]))
         dumped = self._dump_rows() if self.dumpdir else []
         # model update
         batch_adsb_addrs = set()
@@ -569,7 +595,7 @@ class Machine(RuleBasedStateMachine):
     def status(self, idx, kind, seed):
         self.do("status", idx, kind, seed)
 
-    @rule(who=st.sampled_from(["known", "known", "noise", "unknown"]), idx=IDX, kind=st.sampled_from(["bds50", "bds50", "bds60", "bds44", "random"]), seed=SEED,
+    @rule(who=st.sampled_from(["known", "known", "noise", "unknown", "related", "related"]), idx=IDX, kind=st.sampled_from(["bds50", "bds50", "bds60", "bds44", "random", "bds30", "bds30"]), seed=SEED,
           df=st.sampled_from([20, 21]))
     def commb(self, who, idx, kind, seed, df):
         self.do("commb", who, idx, kind, seed, df)
